@@ -21,6 +21,10 @@ func formatUpdaterH265(outFormat format.Format, payload unit.Payload, updateOutD
 	update := false
 
 	for _, nalu := range au {
+		if len(nalu) == 0 {
+			continue
+		}
+
 		typ := h265.NALUType((nalu[0] >> 1) & 0b111111)
 
 		switch typ {
@@ -61,6 +65,10 @@ func formatUpdaterH264(outFormat format.Format, payload unit.Payload, updateOutD
 	update := false
 
 	for _, nalu := range au {
+		if len(nalu) == 0 {
+			continue
+		}
+
 		typ := h264.NALUType(nalu[0] & 0x1F)
 
 		switch typ {
